@@ -49,6 +49,12 @@ EXTRA_TEXTS = ['foo == a["b"]', 'foo != a[ `b` ]', 'a["b"] in foo', 'foo contain
                '(foo == 0)', 'foo == 0a', 'foo == 0.', 'foo == 0.5x', 'foo == 09', 'foo == 0_1', 'foo == -a', 'foo == 0x1F and a == 1', '0 in foo', '0x in foo',
                'a == 1 and b == 2 and c == 3', 'a == 1 or b == 2 or c == 3', 'a == 1 and b == 2 and c == 3 and d == 4', 'a == 1 or b == 2 and c == 3 or d == 4',
                'not a == 1 and not b == 2 and c == 3', '(a == 1 and b == 2) and c == 3', 'a == 1 and (b == 2 and c == 3)', 'any a as x { x == 1 and x == 2 and x == 3 }',
+               # escape sequences inside double-quoted literals (strconv.Unquote)
+               'foo == "\\u00e9"', 'foo == "\\u00E9x"', 'foo == "\\U0001F600"', 'foo == "\\ud800"', 'foo == "\\U00110000"', 'foo == "\\u12"', 'foo == "\\101"',
+               'foo == "\\377"', 'foo == "\\400"', 'foo == "\\18"', 'foo == "\\x41"', 'foo == "\\xc3\\xa9"', 'foo == "\\303\\251"', 'foo == "\\xff\\x41"', 'foo == "\\0"',
+               'foo == "\\u0000"', 'foo == "\\u0041\\u00bd"', 'foo == "\\\'"', 'a["\\u00e9"] == 1', 'foo == "\\U000000e9"', 'foo == "\\x4"', 'foo == "\\xzz"', 'foo == "\\u00a0"',
+               'foo == "\\U0010FFFF"', 'foo == "\\UFFFFFFFF"', 'foo == "\\udfff"', 'foo == "\\ue000"', 'foo == "\\a\\b\\f\\v"', 'foo == "\\x80\\101"', 'foo == "\\342\\x98\\x83"', 'foo == "\\u"',
+               'foo == "\\07"', 'foo == "\\008"', 'foo matches "\\\\d+\\x2e"', '"\\u00bd" in foo',
                'a == 1 or b == 2 or c == 3 or d == 4 or e == 5', '(a == 1 or b == 2) or c == 3', 'a is empty and b is empty and c is not empty']
 
 
